@@ -125,6 +125,7 @@ pub struct ArchiveOpts {
     order: u8,       // 0 as generated (parents first), 1 reversed (children before parents), 2 shuffled
     dir_members: u8, // 0 all, 1 none, 2 some
     dot_prefix: bool,
+    detours: bool, // some member paths reach their directory through `x/..` (and `.`) components
 }
 
 enum Member {
@@ -155,6 +156,31 @@ fn members(t: &Tree, o: ArchiveOpts, rng: &mut Rng) -> (Vec<Member>, Tree) {
     for (id, ext, b) in &t.files {
         v.push(Member::File(format!("{pre}{}", Tree::rel_path(id, Some(ext))), b.clone()));
     }
+    if o.detours {
+        // `zz/../a/f.x`, `a/zz/yy/../../f.x`, `a/./zz/../f.x`: the same member, spelled with a
+        // detour at some depth (depth 0 pops the id builder back to the root)
+        for m in v.iter_mut() {
+            if !rng.chance(1, 2) {
+                continue;
+            }
+            let p = match m {
+                Member::File(p, _) | Member::Dir(p) => p,
+            };
+            let body = p.strip_prefix(pre).unwrap_or(p).to_string();
+            let segs: Vec<&str> = body.split('/').collect();
+            // the last segment is the file name (or "" after a directory's trailing slash)
+            let ndirs = if body.ends_with('/') { segs.len().saturating_sub(2) } else { segs.len() - 1 };
+            let at = rng.below(ndirs as u64 + 1) as usize;
+            let detour = *rng.pick(&["zz/..", "zz/yy/../..", "./zz/..", "zz/../yy/.."]);
+            let mut out: Vec<&str> = segs[..at].to_vec();
+            out.push(detour);
+            out.extend_from_slice(&segs[at..]);
+            let np = format!("{pre}{}", out.join("/"));
+            if np.len() <= 100 {
+                *p = np;
+            }
+        }
+    }
     match o.order {
         1 => v.reverse(),
         2 => {
@@ -179,7 +205,16 @@ fn member_coq(m: &Member) -> String {
         Member::Dir(p) => (p.as_str(), true),
     };
     let path = path.strip_prefix("./").unwrap_or(path).trim_end_matches('/');
-    let mut segs: Vec<String> = path.split('/').map(|x| x.to_string()).collect();
+    let mut segs: Vec<String> = vec![];
+    for x in path.split('/') {
+        match x {
+            "." => {}
+            ".." => {
+                segs.pop();
+            }
+            _ => segs.push(x.to_string()),
+        }
+    }
     if is_dir {
         format!("MDir {}", id_coq(&segs))
     } else {
@@ -223,14 +258,27 @@ fn tar_bytes(ms: &[Member]) -> Vec<u8> {
                 h.set_size(data.len() as u64);
                 h.set_mode(0o644);
                 h.set_entry_type(tar::EntryType::Regular);
-                b.append_data(&mut h, &name, &data[..]).unwrap();
+                if name.contains("..") {
+                    // set_path refuses `..`: write the name field directly
+                    h.as_old_mut().name[..name.len()].copy_from_slice(name.as_bytes());
+                    h.set_cksum();
+                    b.append(&h, &data[..]).unwrap();
+                } else {
+                    b.append_data(&mut h, &name, &data[..]).unwrap();
+                }
             }
             Member::Dir(name) => {
                 let mut h = tar::Header::new_gnu();
                 h.set_size(0);
                 h.set_mode(0o755);
                 h.set_entry_type(tar::EntryType::Directory);
-                b.append_data(&mut h, &name, std::io::empty()).unwrap();
+                if name.contains("..") {
+                    h.as_old_mut().name[..name.len()].copy_from_slice(name.as_bytes());
+                    h.set_cksum();
+                    b.append(&h, std::io::empty()).unwrap();
+                } else {
+                    b.append_data(&mut h, &name, std::io::empty()).unwrap();
+                }
             }
         }
     }
@@ -455,7 +503,7 @@ fn large_members(base: &Path, rng: &mut Rng, bad: &mut Vec<String>) -> u64 {
     materialize_fs(&t, &root);
     check("filesystem", &FileSystem::new(&root).unwrap(), bad);
     for deflate in [false, true] {
-        let o = ArchiveOpts { deflate, order: 0, dir_members: 0, dot_prefix: false };
+        let o = ArchiveOpts { deflate, order: 0, dir_members: 0, dot_prefix: false, detours: false };
         let (ms, _) = members(&t, o, rng);
         let zb = zip_bytes(&ms, o);
         check(if deflate { "zip (deflated)" } else { "zip (stored)" }, &Zip::from_bytes(zb.clone()).unwrap(), bad);
@@ -555,6 +603,7 @@ pub fn run(a: &Args) {
                 order: (v % 3) as u8,
                 dir_members: ((v + i) % 3) as u8,
                 dot_prefix: rng.chance(1, 4),
+                detours: rng.chance(1, 3),
             };
             // `t` asks the questions (also about directories the archive leaves out), `ta` is
             // what the archive describes
